@@ -228,6 +228,12 @@ def build_c28(hist):
         if e[0] == "wait":
             if e[1]:
                 steps.append({"wait_ms": e[1]})
+                if cur:
+                    # the copies must also be right some time after a notification (a background
+                    # thread may write a stale text back), not only directly after it
+                    steps.append({"snapshot": [uri_of(n) for n in cur]})
+                    for n in cur:
+                        expected.append((len(steps) - 1, n, cur[n]))
         elif e[0] == "open":
             steps.append(did_open(e[1], 1, e[2]))
             cur[e[1]] = e[2]
@@ -667,6 +673,21 @@ def c29_def(r, i, names):
     return f"print! \"p{i}\""
 
 
+def c29_def_clean(r, i):
+    """a definition for documents that can become free of diagnostics: prints and public
+    constants (no 'unused' warning), now and then a line with an error"""
+    k = r.below(10)
+    if k <= 3:
+        return f'print! "p{i}"'
+    if k <= 6:
+        return f".v{i} = {r.range(0, 99)}"
+    if k == 7:
+        return f'.e{i} = {r.range(0, 9)} + "x"'          # type error
+    if k == 8:
+        return f"print! undefined_{i}"                    # name error
+    return f'.s{i} = "t{r.range(0, 99)}"'
+
+
 def def_name(line):
     import re
     m = re.match(r"^(\w+)", line)
@@ -677,15 +698,22 @@ def gen_c29(seed, idx):
     r = SplitMix.derive(seed, "C29", idx)
     two = r.chance(0.3)
     pyimp = (not two) and r.chance(0.35)      # a single document that is still a node of the module graph
-    names = ["a.er", "b.er"] if two else ["a.er"]
+    # a second document that neither imports nor is imported (its diagnostics are its own business)
+    other = (not two) and r.chance(0.25)
+    # documents that can become free of diagnostics (only then is an empty list ever published)
+    clean = r.chance(0.25)
+    names = ["a.er", "b.er"] if two else (["a.er", "c.er"] if other else ["a.er"])
     ctr = [0]
+
+    def one_def(defined):
+        return c29_def_clean(r, ctr[0]) if clean else c29_def(r, ctr[0], defined)
 
     def program(n_lines, prefix=None):
         lines = list(prefix or [])
         defined = [def_name(l) for l in lines if def_name(l)]
         for _ in range(n_lines):
             ctr[0] += 1
-            l = c29_def(r, ctr[0], defined)
+            l = one_def(defined)
             lines.append(l)
             if def_name(l):
                 defined.append(def_name(l))
@@ -693,11 +721,13 @@ def gen_c29(seed, idx):
     docs = {}
     if two:
         docs["b.er"] = [f".k{j} = {r.range(0, 50)}" for j in range(r.range(1, 3))]
-        docs["a.er"] = program(r.range(2, 10), prefix=['b = import "b"', "a0 = b.k0 + 1"])
+        docs["a.er"] = program(r.range(2, 10), prefix=['b = import "b"', "print! b.k0" if clean else "a0 = b.k0 + 1"])
     elif pyimp:
-        docs["a.er"] = program(r.range(3, 10), prefix=['pm = pyimport "math"', "a0 = pm.floor(2.5)"])
+        docs["a.er"] = program(r.range(3, 10), prefix=['pm = pyimport "math"', "print! pm.floor(2.5)" if clean else "a0 = pm.floor(2.5)"])
     else:
         docs["a.er"] = program(r.range(3, 12))
+    if other:
+        docs["c.er"] = program(r.range(2, 6))
     events = [["wait", r.pick([0, 50, 600])]]
     cur = {n: list(docs[n]) for n in names}
     think = [0, 0, 0, 1, 20, 100, 300, 450, 500, 520, 600, 900, 2000]
@@ -706,7 +736,7 @@ def gen_c29(seed, idx):
     # document is never analysed (known finding C29-edit-before-first-poll-never-analysed): one
     # history in ten starts editing at once, the others after two poll periods.
     early_edit = r.chance(0.1)
-    for n in (["b.er", "a.er"] if two else ["a.er"]):
+    for n in (["b.er", "a.er"] if two else names):
         events.append(["open", n, "\n".join(cur[n]) + "\n"])
         events.append(["wait", r.pick(think)])
     if not early_edit:
@@ -761,7 +791,7 @@ def gen_c29(seed, idx):
                 if n == "b.er":
                     new = f".k{ctr[0]} = {r.range(0, 50)}"
                 else:
-                    new = c29_def(r, ctr[0], [def_name(l) for l in lines[:k] if def_name(l)])
+                    new = one_def([def_name(l) for l in lines[:k] if def_name(l)])
                 changes.append({"range": [k, 0, k, 0], "text": new + "\n"})
                 lines = lines[:k] + [new] + lines[k:]
             elif op == "del":
@@ -774,7 +804,7 @@ def gen_c29(seed, idx):
                 if n == "b.er":
                     new = f".k{ctr[0]} = {r.range(0, 50)}" if r.chance(0.5) else lines[k].split(" = ")[0] + f" = {r.range(0, 50)}"
                 else:
-                    new = c29_def(r, ctr[0], [def_name(l) for l in lines[:k] if def_name(l)])
+                    new = one_def([def_name(l) for l in lines[:k] if def_name(l)])
                 history.append((n, k, lines[k]))
                 changes.append({"range": [k, 0, k, len(lines[k])], "text": new})
                 lines = lines[:k] + [new] + lines[k + 1:]
